@@ -295,6 +295,12 @@ class Evaluator:
             if a.kind != b.kind:
                 return z3.And(z3.Length(a.t) == 0, z3.Length(b.t) == 0)
             return a.t == b.t
+        if isinstance(a, VArr) and isinstance(b, VArr):
+            # sequence equality: same length and the same elements (the same view trivially so)
+            if a.kind != b.kind:
+                return z3.And(a.n == 0, b.n == 0)
+            j = z3.Int("eqarr!j")
+            return z3.And(a.n == b.n, z3.ForAll([j], z3.Implies(z3.And(j >= 0, j < a.n), z3.Select(a.arr, a.off + j) == z3.Select(b.arr, b.off + j))))
         if isinstance(a, VTuple) and isinstance(b, VTuple):
             if len(a.items) != len(b.items):
                 return z3.BoolVal(False)
@@ -914,10 +920,18 @@ class Evaluator:
                 cenv.vars[ext.params[i]] = a
         for k, v in kwargs.items():
             cenv.vars[k] = v
+        for pk in list(cenv.vars):
+            # a caller variable that a parameter of the same name shadows stays reachable as caller_<name> (as for modular calls)
+            cv = env.lookup(pk)
+            if cv is not None:
+                cenv.vars["caller_" + pk] = cv
         self.ctx.assumptions_used.add(f"assumed contract on external call `{key}` in {self.ctx.contract.name}: "
                                       f"returns {ext.returns}, ensures {ext.ensures}, may raise {sorted(ext.exsures)}"
                                       + (f" ({ext.note})" if ext.note else ""))
         sub = self.pure_eval()
+        # the callee's `old` state (heap_unchanged() in its assumed clauses) is the state at this call, not at our entry
+        sub.old_heap = dict(self.path.heap)
+        sub.alloc_base = self.path.heap.get("$alloc")
         ca = self.site_asserts(key, node)
         if ca and not self.pure:
             for cl in ca:
@@ -1262,7 +1276,8 @@ class Evaluator:
             r = z3.Const("r!hu", z3.IntSort())
             j = z3.Const("j!hu", z3.IntSort())
             eqs = []
-            a0 = self.path.alloc0
+            a0 = getattr(self, "alloc_base", None)
+            a0 = self.path.alloc0 if a0 is None else a0
             for f in cur:
                 if f in old and f != "$alloc" and not z3.eq(cur[f], old[f]) and f not in relax:
                     cf = cur[f]
@@ -1290,7 +1305,8 @@ class Evaluator:
             old = self.old_heap or {}
             cur = self.path.heap
             r = z3.Const("r!hue", z3.IntSort())
-            a0 = self.path.alloc0
+            a0 = getattr(self, "alloc_base", None)
+            a0 = self.path.alloc0 if a0 is None else a0
             eqs = []
             for f in cur:
                 if f in old and f != "$alloc" and not z3.eq(cur[f], old[f]):
@@ -1659,6 +1675,16 @@ class Evaluator:
         if isinstance(tgt, ast.Attribute):
             base = self.ev(tgt.value, env)
             if isinstance(base, VRef):
+                # call_asserts keyed "<target text> =" (e.g. "binding.value ="): clauses over the caller's variables that must
+                # hold where this field is written; `stored` names the value being written
+                clauses = self.ctx.contract.call_asserts.get(ast.unparse(tgt) + " =", []) if getattr(self.ctx, "contract", None) else []
+                if clauses and not self.pure:
+                    sub = self.pure_eval()
+                    aenv = self.E.Env(parent=env)
+                    aenv.vars["stored"] = value
+                    for cl in clauses:
+                        t = sub.truth(sub.ev(ast.parse(cl, mode="eval").body, aenv))
+                        self.ctx.oblige(self.path, "assert@callsite", f"{ast.unparse(tgt)} = ...: {cl} @L{getattr(node, 'lineno', 0)}", t, node)
                 self.heap.setattr(base, tgt.attr, value, node)
                 return
         if isinstance(tgt, ast.Subscript):
